@@ -170,18 +170,25 @@ def np_theta(psi, i, n):
     def S_at(b):
         return Ss[b] if fin else Ss[b % L]
 
+    def spow(b, e):
+        # S_b ** e, never touching S when e == 0 (zero singular values after enlarge_chi)
+        return 1.0 if e == 0 else S_at(b) ** e
+
     th = None
+    prev_r = 0.0  # right exponent already present on the bond to the left (none before the first site)
     for k in range(n):
         j = i + k
         jj = j % L
         f = forms[jj]
-        G = Bs[jj] * (S_at(j) ** (-f[0]))[:, None, None] * (S_at(j + 1) ** (-f[1]))[None, None, :]
-        G = G * S_at(j)[:, None, None]
-        if th is None:
-            th = G
-        else:
-            th = np.tensordot(th, G, axes=(-1, 0))
-    th = th * S_at(i + n)
+        e = 1.0 - prev_r - f[0]   # every bond must carry exactly one power of S
+        G = Bs[jj]
+        if e != 0:
+            G = G * spow(j, e)[:, None, None]
+        th = G if th is None else np.tensordot(th, G, axes=(-1, 0))
+        prev_r = f[1]
+    e = 1.0 - prev_r
+    if e != 0:
+        th = th * spow(i + n, e)
     return th
 
 
@@ -761,8 +768,10 @@ def run_cases(ctx, prop, mod_name, fn_name, cases, driver='C07', procs=None, bud
     if len(chunks) == 1:
         outs = [run_chunk(args[0])]
     else:
-        with mp.get_context('fork').Pool(len(chunks)) as pool:
-            outs = pool.map(run_chunk, args)
+        # ProcessPoolExecutor raises BrokenProcessPool when a worker dies (a plain Pool would hang forever)
+        from concurrent.futures import ProcessPoolExecutor
+        with ProcessPoolExecutor(max_workers=len(chunks), mp_context=mp.get_context('fork')) as ex:
+            outs = list(ex.map(run_chunk, args))
     results, derrs = [], []
     for o in outs:
         results += o['results']
